@@ -129,6 +129,9 @@ type replayCtx struct {
 	objNames map[string]string
 	nobj     int
 	depth    int
+	haveObj  map[string]bool
+	askedObj map[string]bool
+	newNeeds int
 	post     []string
 	approx   bool // some part of the model state could not be rebuilt (left zero / nil)
 	e       *Engine
@@ -256,7 +259,20 @@ func (rc *replayCtx) expr(pfx string, t types.Type, objMem func(root types.Type,
 		}
 		rc.approx = true
 		return fmt.Sprintf("make(%s, %d, %d)", rc.typeStr(t), ln, cp)
-	case *types.Map, *types.Chan, *types.Signature:
+	case *types.Map:
+		// contents are not reconstructed: an empty map when the model's map is not nil
+		rc.approx = true
+		if rc.leaf(pfx).Sign() == 0 {
+			return "nil"
+		}
+		return fmt.Sprintf("%s{}", rc.typeStr(t))
+	case *types.Chan:
+		rc.approx = true
+		if rc.leaf(pfx).Sign() == 0 {
+			return "nil"
+		}
+		return fmt.Sprintf("make(%s, 16)", rc.typeStr(t))
+	case *types.Signature:
 		rc.approx = true
 		return "nil"
 	case *types.Struct:
@@ -284,19 +300,30 @@ func (rc *replayCtx) expr(pfx string, t types.Type, objMem func(root types.Type,
 			rc.imports["errors"] = true
 			return `errors.New("replayed error")`
 		}
+		if nt, ok := t.(*types.Named); ok && nt.Obj().Pkg() != nil && nt.Obj().Pkg().Path() == "net" && nt.Obj().Name() == "PacketConn" {
+			// the connection: a recorder that feeds the native vWireCount / vWireLast / vWireEach
+			return "verifConn{}"
+		}
 	case *types.Pointer:
 		if rc.leaf(pfx).Sign() == 0 {
 			return "nil"
 		}
-		if st, ok := u.Elem().Underlying().(*types.Struct); ok && rc.depth < 2 {
+		if st, ok := u.Elem().Underlying().(*types.Struct); ok && rc.depth < 4 {
 			ref := rc.leaf(pfx).Uint64()
 			key := fmt.Sprintf("obj.%s.%d", typeKey(u.Elem()), ref)
 			if name, ok := rc.objNames[key]; ok {
 				return name
 			}
-			if rc.objVals == nil {
-				// first pass: record that this object's leaves are needed
-				rc.needObjs = append(rc.needObjs, objNeed{u.Elem(), ref, key})
+			if rc.objVals == nil || !rc.haveObj[key] {
+				// record that this object's leaves are needed (fetched in the next round)
+				if !rc.askedObj[key] {
+					if rc.askedObj == nil {
+						rc.askedObj = map[string]bool{}
+					}
+					rc.askedObj[key] = true
+					rc.needObjs = append(rc.needObjs, objNeed{u.Elem(), ref, key})
+					rc.newNeeds++
+				}
 				return "nil"
 			}
 			rc.nobj++
@@ -413,11 +440,25 @@ func (w *World) replay(res *Result, idx int, outDir string, timeout time.Duratio
 	for _, prm := range fn.Params {
 		argExprs = append(argExprs, rc.expr("arg."+prm.Name(), prm.Type(), nil))
 	}
-	if len(rc.needObjs) > 0 && rc.bad == "" {
-		// second pass: fetch the leaves of the pointed-to objects from the model
+	type fixedCell struct {
+		t *Term
+		v *big.Int
+	}
+	var fixedCells []fixedCell
+	for round := 0; round < 4 && rc.newNeeds > 0 && rc.bad == ""; round++ {
+		if os.Getenv("GOVC_DEBUG_REPLAY") != "" {
+			fmt.Fprintf(os.Stderr, "replay round %d: %d objects needed\n", round, len(rc.needObjs))
+		}
+		rc.newNeeds = 0
+		// next pass: fetch the leaves of all pointed-to objects found so far from one model
 		var ocells []memCell
 		var okeys []string
 		var bounds []*Term
+		// keep the objects fetched in earlier rounds as they were (the pointers between them
+		// must not move when the model is recomputed)
+		for _, fc := range fixedCells {
+			bounds = append(bounds, Eq(fc.t, BVConstBig(fc.v, fc.t.sort)))
+		}
 		for _, n := range rc.needObjs {
 			for _, l := range leavesOf(n.typ) {
 				name := objMemName(n.typ, l)
@@ -439,14 +480,25 @@ func (w *World) replay(res *Result, idx int, outDir string, timeout time.Duratio
 		}
 		mv := parseValues(out2)
 		rc.objVals = map[string]*big.Int{}
+		fixedCells = fixedCells[:0]
 		for i, k := range okeys {
 			if v, ok := mv[fmt.Sprintf("mv_%d", i)]; ok {
 				rc.objVals[k] = v
+				if ocells[i].term.sort != BoolSort {
+					fixedCells = append(fixedCells, fixedCell{ocells[i].term, v})
+				}
 			} else {
 				rc.objVals[k] = new(big.Int)
 			}
 		}
+		rc.haveObj = map[string]bool{}
+		for _, n := range rc.needObjs {
+			rc.haveObj[n.key] = true
+		}
 		rc.objNames = map[string]string{}
+		rc.nobj = 0
+		rc.decls = nil
+		rc.post = nil
 		argExprs = nil
 		for _, prm := range fn.Params {
 			argExprs = append(argExprs, rc.expr("arg."+prm.Name(), prm.Type(), nil))
